@@ -181,7 +181,7 @@ class Collector:
     def run_case(self, fn, case):
         """Run fn(case); Violations are recorded, never propagated."""
         try:
-            fn(case)
+            call_checked(fn, case)
         except Skip as sk:
             self.counters["skipped:" + sk.why] += 1
         except Violation as v:
@@ -212,6 +212,28 @@ def _pint_frame(tb) -> str:
         if "/pint/" in fn and "/vf/" not in fn:
             return f"{os.path.basename(fn)}:{fr.name}"
     return ""
+
+
+def call_checked(fn, case):
+    """Run a case function.  An exception that is *raised inside pint* (innermost frame under the tree under test)
+    and not anticipated by the check becomes a Violation bucketed by (type, pint frame); an exception raised by
+    harness code propagates (exit 2)."""
+    try:
+        return fn(case)
+    except (Violation, Skip, KeyboardInterrupt, SystemExit, MemoryError, HarnessError):
+        raise
+    except OverflowError as exc:
+        raise Skip("float_range_overflow") from exc
+    except RecursionError:
+        raise
+    except Exception as exc:  # noqa: BLE001
+        frames = traceback.extract_tb(exc.__traceback__)
+        inner = frames[-1].filename.replace("\\", "/") if frames else ""
+        lib_inner = inner.startswith(REPO + "/") or "/fractions.py" in inner or "/decimal.py" in inner or "/numbers.py" in inner
+        pf = _pint_frame(exc.__traceback__)
+        if pf and lib_inner:
+            raise Violation(f"unexpected_exception:{type(exc).__name__}@{pf}", f"{type(exc).__name__}: {exc}") from exc
+        raise
 
 
 def attempt(fn, *args, **kwargs):
@@ -274,7 +296,7 @@ def hyp_search(col: Collector, strategy, check_fn, *, max_examples: int, seed: i
             if over and enc(case) != state["best"]:
                 return  # stop shrinking: everything but the best known failure passes
             try:
-                check_fn(case)
+                call_checked(check_fn, case)
             except Skip as sk:
                 col.counters["skipped:" + sk.why] += 1
             except Violation as v:
